@@ -102,10 +102,28 @@ def dedupStrings : List String → List String
   | [] => []
   | s :: ss => if ss.contains s then dedupStrings ss else s :: dedupStrings ss
 
+mutual
+/-- sympy `_find_predicates`: the symbols **and the constants** occurring in the expression
+(`True`/`False` are not `BooleanFunction`s, so each counts as a predicate) -/
+def preds : BExp → List String
+  | .tt => ["True"]
+  | .ff => ["False"]
+  | .sym n => [n]
+  | .not e => preds e
+  | .and l => predsList l
+  | .or l => predsList l
+  | .xor l => predsList l
+  | .ite c t e => preds c ++ preds t ++ preds e
+  | .imp a b => preds a ++ preds b
+def predsList : List BExp → List String
+  | [] => []
+  | e :: es => preds e ++ predsList es
+end
+
 /-- the tool calls `to_cnf/to_dnf(…, simplify=True)` without `force=True`: sympy raises
-`ValueError` when the expression has more than 8 variables (`nfVarLimit`) -/
+`ValueError` when the expression has more than 8 predicates (`nfVarLimit`) -/
 def nfCall (q : Quirks) (nf : NF) (form : Form) (e : BExp) : Except String BExp :=
-  if q.nfVarLimit && (form == .cnf || form == .dnf) && (dedupStrings e.syms).length > 8 then
+  if q.nfVarLimit && (form == .cnf || form == .dnf) && (dedupStrings (preds e)).length > 8 then
     .error "ValueError"
   else nf form e
 
